@@ -201,6 +201,11 @@ def stepFw (pid : String) (d : DrvSt) (op : String) (got : String) : StepResult 
   | ["faces2", _k] =>
     /- concurrent registration of a Local and a NonLocal face in the real face table: each keeps its own
        id, and the face the forwarder finds under an arrival's id is the face the packet arrived on -/
+    if got.startsWith "face-ids-reused" then
+      { st := d, expected := some "ok", cov := ["faces2"],
+        spec := ([(⟨"C01-face-id-reused", "face-table", s!"{got}: Data for a pending Interest of the old face would be emitted on the new one"⟩ : SpecFail),
+                  ⟨"C09-face-id-reused", "face-table", s!"{got}: the scope found under an arrival's face id need not be the scope of the face it arrived on"⟩]).filter (keepClause pid) }
+    else
     { st := d, expected := some "ok", cov := ["faces2"],
       spec := (if got != "ok" && !isCrash got then
           [(⟨"C09-arrival-scope-attribution", "face-id-clash", s!"two faces registered at the same moment: {got} (the scope found under an arrival's face id is not the scope of the face it arrived on)"⟩ : SpecFail)] ++
@@ -226,6 +231,15 @@ def stepFw (pid : String) (d : DrvSt) (op : String) (got : String) : StepResult 
       let f : Face := ⟨id, isLocal, lt⟩
       cfgAll (.addFace f)
     | _, _ => bad
+  | ["dynface", id, sc, lt] =>
+    -- a face whose id comes from the real face table; the protocol names it by its slot number
+    match id.toNat?, parseLink lt with
+    | some id, some lt => { cfgAll (.addFace ⟨id, sc == "L", lt⟩) with cov := ["dynface"] }
+    | _, _ => bad
+  | ["dynclose", id] =>
+    match id.toNat? with
+    | some id => { cfgAll (.rmFace id) with cov := ["dynclose"] }
+    | none => bad
   | ["rmface", id] =>
     match id.toNat? with
     | some id => cfgAll (.rmFace id)
@@ -324,7 +338,17 @@ def stepFw (pid : String) (d : DrvSt) (op : String) (got : String) : StepResult 
     match f.toNat?, Name.ofText n, optNat fresh, c.toNat? with
     | some f, some n, some fresh, some c =>
       match parseDTok d tok with
-      | none => { st := d, expected := some "skip", cov := ["d-skip"] }
+      | none =>
+        /- the model knows no such token reference. If the implementation's harness did resolve it (the two
+           have diverged before), the ledger - which depends on the implementation's outputs only - still
+           accounts for the arrival -/
+        if got == "skip" then { st := d, expected := some "skip", cov := ["d-skip"] }
+        else
+          let dd : Data := { name := n, freshMs := fresh, content := c, tok := .none }
+          let (sp, fails) := match parseGot got with
+            | some (ps, pit, cs) => Spec.onData d.sp f dd (specTok d.sp tok) ps pit cs
+            | none => (d.sp, [])
+          { st := { d with sp := sp }, expected := some "skip", spec := fails.filter (keepClause pid), cov := ["d-skip"] }
       | some (dt, tokThread) =>
         let dd : Data := { name := n, freshMs := fresh, content := c, tok := dt }
         let orc := parseOracle got
